@@ -261,7 +261,7 @@ fn run(ctx: &mut Ctx) {
         let stream: Vec<Vec<u8>> = vec![vf[0].clone(), vf[5].clone(), vf[2].clone()];
         let (_, clean) = run_clean(&cfg, &stream);
         let mut sizes: Vec<usize> = vec![];
-        for p in [4096usize, 8192, 16384, 32768, 65536, 131072] {
+        for p in [4096usize, 8192, 16384, 32768, 65536, 131072, 262144, 524288, 1048576, 2097152] {
             for d in [-3i64, -2, -1, 0, 1, 2] {
                 sizes.push((p as i64 + d) as usize);
             }
@@ -272,6 +272,9 @@ fn run(ctx: &mut Ctx) {
                 continue;
             }
             for fill in [b'A', b'z', 0xFFu8] {
+                if *n > 200_000 && fill != b'z' {
+                    continue;
+                }
                 for crlf in [false, true] {
                     let mut j = vec![fill; *n];
                     if crlf {
